@@ -70,16 +70,31 @@ func verifSameSet(a, b []string) bool {
 }
 
 // H_c16_listener_steps: 1..3 (thorough 1..5) add/remove operations over the names {a, b} and the kinds SMB and
-// External (duplicates and unknown names included): listener names stay unique, and the
+// External plus External listeners registered by a service connection (duplicates and unknown names included): listener names stay unique, and the
 // running set, the persisted set and the set advertised to operators are the same set; a
 // removed External listener's endpoint is gone.
 func H_c16_listener_steps() {
 	t := verifNewTeamserver(true)
 	names := []string{"a", "b"}
 	steps := 1 + nondet_choice("steps", verif_bound("listener-steps-max", 3, 5))
+	svc := map[string]bool{} // listeners registered by a service connection (not persisted, not advertised)
 	for s := 0; s < steps; s++ {
 		name := names[nondet_choice("name", 2)]
-		switch nondet_choice("op", 3) {
+		switch nondet_choice("op", 4) {
+		case 3:
+			taken := false
+			for _, l := range t.Listeners {
+				if l.Name == name {
+					taken = true
+				}
+			}
+			err := t.ListenerServiceExc2Add(name, "sep-"+name, nil)
+			if taken {
+				verif_assert(err != nil, "a service listener with a name that is taken is refused")
+			} else {
+				verif_assert(err == nil, "a service listener with a free name is accepted")
+				svc[name] = true
+			}
 		case 0:
 			t.ListenerStart(handlers.LISTENER_PIVOT_SMB, handlers.SMBConfig{Name: name, PipeName: "p" + name})
 		case 1:
@@ -87,15 +102,31 @@ func H_c16_listener_steps() {
 		case 2:
 			t.ListenerRemove(name)
 		}
-		var running []string
+		var running, builtin []string
 		for i, l := range t.Listeners {
 			running = append(running, l.Name)
 			for j := 0; j < i; j++ {
 				verif_assert(t.Listeners[j].Name != l.Name, "listener names stay unique")
 			}
 		}
-		verif_assert(verifSameSet(running, verifDBListeners), "running listeners = persisted listeners")
-		verif_assert(verifSameSet(running, verifAdvertised(t)), "running listeners = listeners advertised to (new) operators")
+		for n := range svc {
+			still := false
+			for _, r := range running {
+				if r == n {
+					still = true
+				}
+			}
+			if !still {
+				delete(svc, n)
+			}
+		}
+		for _, r := range running {
+			if !svc[r] {
+				builtin = append(builtin, r)
+			}
+		}
+		verif_assert(verifSameSet(builtin, verifDBListeners), "running built-in listeners = persisted listeners")
+		verif_assert(verifSameSet(builtin, verifAdvertised(t)), "running built-in listeners = listeners advertised to (new) operators")
 		for _, ep := range t.Endpoints {
 			owner := false
 			for _, l := range t.Listeners {
